@@ -648,7 +648,8 @@ func LkInDomain(code uint64, v *Val) bool {
 				return code == LkDagJson
 			case KMap:
 				for _, e := range x.M {
-					if !validUTF8(e.K) || e.K == "/" {
+					// a map with a "/" key is reserved syntax for dag-json, ordinary data for plain json
+					if !validUTF8(e.K) || (e.K == "/" && code == LkDagJson) {
 						return false
 					}
 				}
@@ -683,6 +684,11 @@ func (r *Rng) LkGenVal(code uint64) *Val {
 		}
 		return Bytes(r.GenStr(c) + r.GenStr(c))
 	}
+	if r.Intn(10) == 0 {
+		if v := r.lkReservedShape(code); v != nil && LkInDomain(code, v) {
+			return v
+		}
+	}
 	cfg := LkGenCfg(code)
 	for i := 0; ; i++ {
 		var v *Val
@@ -695,4 +701,39 @@ func (r *Rng) LkGenVal(code uint64) *Val {
 			return v
 		}
 	}
+}
+
+// lkReservedShape: maps of the shapes dag-json reserves for links and bytes — {"/": "<string>"} and
+// {"/": {"bytes": "<string>"}}, alone, with a second entry, nested in a list or a map.  For json,
+// cbor and dag-cbor these are ordinary maps and must load back as the maps they are; for dag-json
+// they are outside the domain (nil).
+func (r *Rng) lkReservedShape(code uint64) *Val {
+	switch code {
+	case LkJson, LkCbor, LkDagCbor, LkDagCborT:
+	default:
+		return nil
+	}
+	strs := []string{"bafyreigdyrzt5sfp7udm7hu76uh7y26nf3efuylqabf3oclgtqy55fbzdi", "QmYwAPJzv5CZsnA625s3Xf2nemtYgPpHdWEz79ojWnPbdG",
+		"AP8", "aGVsbG8", "aGVsbG8gd29ybGQ=", "", "not base64 !", "x"}
+	str := Str(strs[r.Intn(len(strs))])
+	if r.Intn(4) == 0 {
+		str = Str(r.GenStr(&GenCfg{}))
+	}
+	var m *Val
+	if r.Bool() {
+		m = Map(Entry{"/", str})
+	} else {
+		m = Map(Entry{"/", Map(Entry{"bytes", str})})
+	}
+	switch r.Intn(5) {
+	case 0: // a second entry, after or before
+		m.M = append(m.M, Entry{"x", Int(int64(r.Intn(9)))})
+	case 1:
+		m.M = append([]Entry{{"a", Null()}}, m.M...)
+	case 2:
+		return List(m, Int(1))
+	case 3:
+		return Map(Entry{"k", m}, Entry{"n", Int(2)})
+	}
+	return m
 }
